@@ -171,6 +171,63 @@ theorem frame_after_prepare (m : List (String × String)) (stmts : List BStmt) (
       simp only [List.map_cons, frameStmts, replaceStmt, frameReplace, ih]
       cases lookup q.text m <;> simp [freshHandle]
 
+/-- `rebuilt_batch_reprepares_exact_text`: when a node answers the BATCH (the REBUILT one) with UNPREPARED naming an id,
+the statement re-prepared is one of the caller's: a prepared statement of the caller's batch with that id, or the
+statement `prepare_batch` prepared from EXACTLY the text of one of the caller's unprepared statements - so the
+re-preparation carries that text byte for byte (connection.rs:1225-1232, `p.get_statement()`). -/
+theorem rebuilt_batch_reprepares_exact_text (prep : String → Except Nat String) (order : List String)
+    (stmts stmts' : List BStmt) (h : Pointwise (StmtRel prep order) stmts stmts') (id : String) (p : PStmt)
+    (hf : findPrepared id stmts' = some p) :
+    p.id = id ∧ (.prepared p ∈ stmts ∨ ∃ q, .query q ∈ stmts ∧ prep q.text = .ok id ∧ p = freshHandle q.text id) := by
+  induction h with
+  | nil => simp [findPrepared] at hf
+  | @cons a b xs ys hab _ ih =>
+    cases a with
+    | prepared p0 =>
+      simp only [StmtRel] at hab
+      subst hab
+      simp only [findPrepared] at hf
+      split at hf
+      · rename_i heq
+        simp only [Option.some.injEq] at hf
+        subst hf
+        exact ⟨by simpa using heq, Or.inl (by simp)⟩
+      · obtain ⟨i1, i2⟩ := ih hf
+        refine ⟨i1, ?_⟩
+        rcases i2 with i2 | ⟨q, hq, hp, he⟩
+        · exact Or.inl (by simp [i2])
+        · exact Or.inr ⟨q, by simp [hq], hp, he⟩
+    | query q0 =>
+      simp only [StmtRel] at hab
+      by_cases hin : q0.text ∈ order
+      · obtain ⟨id0, hp0, hb⟩ := hab.1 hin
+        subst hb
+        simp only [findPrepared, freshHandle] at hf
+        by_cases heq : id0 = id
+        · subst heq
+          simp only [beq_self_eq_true, ↓reduceIte, Option.some.injEq] at hf
+          subst hf
+          exact ⟨rfl, Or.inr ⟨q0, by simp, hp0, rfl⟩⟩
+        · have hne : (id0 == id) = false := by simpa using heq
+          simp only [hne, Bool.false_eq_true, ↓reduceIte] at hf
+          obtain ⟨i1, i2⟩ := ih hf
+          refine ⟨i1, ?_⟩
+          rcases i2 with i2 | ⟨q, hq, hp, he⟩
+          · exact Or.inl (by simp [i2])
+          · exact Or.inr ⟨q, by simp [hq], hp, he⟩
+      · have hb := hab.2 hin
+        subst hb
+        simp only [findPrepared] at hf
+        obtain ⟨i1, i2⟩ := ih hf
+        refine ⟨i1, ?_⟩
+        rcases i2 with i2 | ⟨q, hq, hp, he⟩
+        · exact Or.inl (by simp [i2])
+        · exact Or.inr ⟨q, by simp [hq], hp, he⟩
+
+/-- an UNPREPARED naming an id that no statement of the batch has ends the loop (`RepreparedIdMissingInBatch`) -/
+theorem batchRounds_unknown_id (b : Batch) (id : String) (rest : List String) (h : findPrepared id b.stmts = none) :
+    batchRounds b (id :: rest) = [none] := by simp [batchRounds, h]
+
 -- non-vacuity: INSERT with values (prepared), a statement without values (stays), a prepared one (stays)
 example :
     connPrepareBatch (fun t => .ok ("id:" ++ t)) ["a"]
